@@ -338,6 +338,10 @@ def run_ioapi(out, tier, prop):
     out.cov['programs_emitted_by_tlc'] = len(mcp)
     if tier == 'quick' and len(mcp) > 700:
         mcp = rnd.sample(mcp, 700)
+    elif len(mcp) > 12000:
+        # thorough: the model is checked on all of them; a seeded sample is
+        # replayed (one process per program)
+        mcp = rnd.sample(mcp, 12000)
     progs = mcp + progs
     args = [(i + 1, p) for i, p in enumerate(progs)]
     res = run_cases(execute, args, timeout=120, per_child=1)
